@@ -4,7 +4,7 @@
    tmapz Quarter = quarter_map, tmapz Beat / tmapz Musical = beat_map in notated / musical mode,
    tinv = the inverse maps, on the timeline [p_first, p_last] of a part with >= 2 points.
    The same definitions are evaluated on every generated part by the correspondence check. *)
-From PV Require Import Lib.Base Model.C02 Model.C02_Hist Model.C02_Api Gen.C02_Tab Proofs.C02_lib Proofs.C02 Proofs.C02_hist Proofs.C02_api Model.C02_Req Proofs.C02_req.
+From PV Require Import Lib.Base Model.C02 Model.C02_Hist Model.C02_Api Gen.C02_Tab Proofs.C02_lib Proofs.C02 Proofs.C02_hist Proofs.C02_api Model.C02_Req Proofs.C02_req Model.C02_Query Proofs.C02_query.
 From Coq Require Import QArith.
 #[local] Open Scope Z_scope.
 
@@ -429,3 +429,88 @@ Print Assumptions example_requests.
 Theorem req_memo_refuted : exists q0 ops, robs true (rinit q0) ops <> rspec (ainit q0) [] ops.
 Proof. exact Proofs.C02_req.req_memo_refuted. Qed.
 Print Assumptions req_memo_refuted.
+
+(* --- Round j: the FORM of the query (Model/C02_Query.v).  "The function can take scalar values or lists/arrays of
+   values": the `len(self._points) < 2` branch of Part._time_interpolator (np.zeros(np.shape(x))), the wrapper
+   utils.generic.interp1d called with a scalar / a sequence (scipy: ravel, evaluate, reshape; single sample:
+   broadcast_to + result[0]) and quarter_duration_map as built, for the part ANY history of edits leaves (public API,
+   in-place signature attributes, removals).  Every map answers every query -- scalar or sequence, empty, in any
+   order, with repetitions, inside or outside the range -- with one value per queried position, in the order and
+   form of the query, each the value of the CURRENT state at that position; the call never raises *)
+Theorem query_pointwise : forall q0 edits w q,
+  let st := fold_left estep edits (ainit q0) in
+  map_call w st q = Some (pointwise (value_at w st) q).
+Proof. exact Proofs.C02_query.query_pointwise. Qed.
+Print Assumptions query_pointwise.
+
+(* a scalar is answered by a scalar, a sequence by a sequence of the same length *)
+Theorem query_shape : forall q0 edits w q a,
+  map_call w (fold_left estep edits (ainit q0)) q = Some a ->
+  is_vec a = negb (ndim0 q) /\ List.length (ans_list a) = List.length (atleast_1d q).
+Proof. exact Proofs.C02_query.query_shape. Qed.
+Print Assumptions query_shape.
+
+(* entry i of the answer to a sequence is what the scalar call at position i returns: the order of the query,
+   repetitions and the other positions asked along do not matter *)
+Theorem query_entry : forall q0 edits w xs i x,
+  let st := fold_left estep edits (ainit q0) in
+  nth_error xs i = Some x ->
+  exists vs, map_call w st (QVec xs) = Some (AVec vs) /\
+             map_call w st (QScalar x) = Some (AScalar (value_at w st x)) /\
+             nth_error vs i = Some (value_at w st x).
+Proof. exact Proofs.C02_query.query_entry. Qed.
+Print Assumptions query_entry.
+
+Theorem query_app : forall q0 edits w xs ys,
+  let st := fold_left estep edits (ainit q0) in
+  map_call w st (QVec (xs ++ ys)) = Some (AVec (map (value_at w st) xs ++ map (value_at w st) ys)).
+Proof. exact Proofs.C02_query.query_app. Qed.
+Print Assumptions query_app.
+
+(* with at least two time points the value at a position is the map of the current state (req_ask_is_the_map:
+   tmap / tinv / qd_map_impl -- the maps all theorems above are about) ... *)
+Theorem query_value_timeline : forall w st x, (2 <= n_points st)%nat -> value_at w st x = ask w st x.
+Proof. exact Proofs.C02_query.query_value_timeline. Qed.
+Print Assumptions query_value_timeline.
+
+(* ... and at least two time points mean a timeline of positive length, on which the time maps hand the wrapper at
+   least two samples (scipy's branch) *)
+Theorem query_two_points : forall st, (2 <= n_points st)%nat -> afirst st < alast st.
+Proof. exact Proofs.C02_query.n_points_first_last. Qed.
+Print Assumptions query_two_points.
+
+(* a part with a single time point (every present object starts and ends at one time): the four time maps are 0 at
+   every position -- zero lies at the first time point; quarter_duration_map still returns the divisions in force *)
+Theorem query_single_point : forall w st x, (n_points st < 2)%nat -> w <> WQd ->
+  value_at w st x = Some 0%Q /\
+  (forall t, In t (a_times st) -> t = afirst st /\ t = alast st) /\
+  value_at WQd st x = Some (inject_Z (qd_map_impl (p_qs (apart_of st)) x)).
+Proof. exact Proofs.C02_query.query_single_point. Qed.
+Print Assumptions query_single_point.
+
+(* not vacuous: a part with a pickup asked with a scalar, a list in decreasing order with a repetition and a position
+   outside the timeline (nan), the empty list; a part with a signature only (one time point) *)
+Theorem example_queries :
+  let st := fold_left estep ex_edits (ainit 2) in
+  let s1 := fold_left estep ex_single (ainit 4) in
+  n_points st = 3%nat /\
+  aclose (AVec [Some 8; Some 0; Some 0; None; Some (-2)]%Q) (map_call WQuarter st (QVec [24; 4; 4; 30; 0]%Q)) = true /\
+  aclose (AScalar (Some 6%Q)) (map_call WQuarter st (QScalar 16%Q)) = true /\
+  map_call WInvQuarter st (QVec []) = Some (AVec []) /\
+  aclose (AVec [Some 2; Some 4; Some 4]%Q) (map_call WQd st (QVec [15.5; 16; 99]%Q)) = true /\
+  n_points s1 = 1%nat /\
+  aclose (AVec [Some 0; Some 0]%Q) (map_call WBeat s1 (QVec [0; 7]%Q)) = true /\
+  aclose (AScalar (Some 0%Q)) (map_call WInvBeat s1 (QScalar 0%Q)) = true /\
+  aclose (AVec [Some 4; Some 4; Some 3]%Q) (map_call WQd s1 (QVec [0; 4.5; 5]%Q)) = true.
+Proof. exact Proofs.C02_query.ex_query_values. Qed.
+Print Assumptions example_queries.
+
+(* the statement discriminates: it fails for the single-point branch written np.zeros(len(x)) (a scalar query
+   raises), for one that numbers the positions, and for the test written `len(self._points) <= 2` *)
+Theorem query_variants_refuted :
+  zeros_len (QScalar 0%Q) <> Some (pointwise (fun _ => Some 0%Q) (QScalar 0%Q)) /\
+  arange_shape (QVec [0; 0]%Q) <> pointwise (fun _ => Some 0%Q) (QVec [0; 0]%Q) /\
+  (let st := fold_left estep [EApi (AAddNote 0 8)] (ainit 2) in
+   time_call_le2 WQuarter st (QScalar 8%Q) <> Some (pointwise (value_at WQuarter st) (QScalar 8%Q))).
+Proof. exact Proofs.C02_query.ex_refuted. Qed.
+Print Assumptions query_variants_refuted.
